@@ -65,7 +65,14 @@ func ErrorCore(err error) string {
 	if err == nil {
 		return ""
 	}
-	return stripPos(err.Error())
+	msg := err.Error()
+	// an error that reports its own position prefixes its text with that position, in whatever notation this tree uses
+	if pe, ok := err.(interface{ Position() *types.Position }); ok {
+		if p := pe.Position(); p != nil {
+			msg = strings.TrimPrefix(msg, p.String()+": ")
+		}
+	}
+	return stripPos(msg)
 }
 
 func commonPrefix(a, b string) string {
